@@ -159,6 +159,16 @@ func serial(n *oracle.Node) string {
 	return sb.String()
 }
 
+// lineBag: the lines of an indented text without their trailing commas, sorted.
+func lineBag(b []byte) []byte {
+	ls := strings.Split(string(b), "\n")
+	for i := range ls {
+		ls[i] = strings.TrimSuffix(ls[i], ",")
+	}
+	sort.Strings(ls)
+	return []byte(strings.Join(ls, "\n"))
+}
+
 type c13Rel struct {
 	name string
 	// run returns the variant's bytes transformed so that they must equal want(plain)
@@ -234,6 +244,28 @@ func c13Relations() []c13Rel {
 			var sink bytes.Buffer
 			got, err := gojson.MarshalWithOption(x, gojson.Debug(), gojson.DebugWith(&sink))
 			return got, plain, err, false
+		}, false},
+		// UnorderedMap may only permute members, under indentation too: whole lines move, so the bags
+		// of lines (a line's trailing comma depends on its place) must be equal
+		{"lines(Indent+UnorderedMap)=lines(MarshalIndent)", func(x any, plain []byte, k int) ([]byte, []byte, error, bool) {
+			pi := c13Indents[k%len(c13Indents)]
+			if pi[1] == "" && pi[0] == "" {
+				pi = c13Indents[0]
+			}
+			want, e := gojson.MarshalIndent(x, pi[0], pi[1])
+			if e != nil {
+				return nil, nil, nil, true
+			}
+			got, err := gojson.MarshalIndentWithOption(x, pi[0], pi[1], gojson.UnorderedMap())
+			return lineBag(got), lineBag(want), err, false
+		}, false},
+		{"lines(ColorizeIndent+UnorderedMap)=lines(ColorizeIndent)", func(x any, plain []byte, k int) ([]byte, []byte, error, bool) {
+			want, e := gojson.MarshalIndentWithOption(x, "", "  ", gojson.Colorize(scheme))
+			if e != nil {
+				return nil, nil, nil, true
+			}
+			got, err := gojson.MarshalIndentWithOption(x, "", "  ", gojson.Colorize(scheme), gojson.UnorderedMap())
+			return lineBag(got), lineBag(want), err, false
 		}, false},
 		// Debug selects a second dispatch (DebugRun) in front of each of the four interpreters
 		{"strip(Debug+Colorize(markers))=plain", func(x any, plain []byte, k int) ([]byte, []byte, error, bool) {
